@@ -154,7 +154,8 @@ impl JsValue {
                 if y == 0 {
                     Self::nan()
                 } else {
-                    match x % y {
+                    // `wrapping_rem`: `i32::MIN % -1` overflows (and panics) with `%`; its result is 0.
+                    match x.wrapping_rem(y) {
                         rem if rem == 0 && x < 0 => Self::new(-0.0),
                         rem => Self::new(rem),
                     }
@@ -757,7 +758,8 @@ impl JsValue {
             if y == 0 {
                 return Some(Self::nan());
             }
-            return Some(match x % y {
+            // `wrapping_rem`: `i32::MIN % -1` overflows (and panics) with `%`; its result is 0.
+            return Some(match x.wrapping_rem(y) {
                 rem if rem == 0 && x < 0 => Self::new(-0.0),
                 rem => Self::new(rem),
             });
